@@ -237,8 +237,11 @@ func runC04(c *Ctx) {
 					}
 					do(Op{"op": "set", "k": k, "v": j})
 				}
-				for st.m.Len() > 0 {
+				for g := 0; st.m.Len() > 0 && g < 3*n+8; g++ {
 					ks := st.m.Keys()
+					if len(ks) == 0 {
+						break
+					}
 					k := ks[0]
 					switch rng.Intn(3) {
 					case 1:
